@@ -65,17 +65,18 @@ def build_coq(clean=False):
 
 
 def build_harness():
-    """The harness is rebuilt from /repo's current working tree with the verif tag."""
+    """The harness is rebuilt from the repository's current working tree (VERIF_REPO, default /repo) with the verif tag."""
     with Lock('harness'):
         hdir = os.path.join(ROOT, 'harness')
-        # go.sum of the repository covers the harness' dependencies
+        os.makedirs(BUILD, exist_ok=True)
+        # module file pointing at the repository under test; go.sum of the repository covers the dependencies
+        mod = open(os.path.join(hdir, 'go.mod')).read().replace('=> /repo', '=> ' + REPO)
+        modfile = os.path.join(BUILD, 'harness.mod')
+        open(modfile, 'w').write(mod)
         with open(os.path.join(REPO, 'go.sum')) as f:
-            want = f.read()
-        p = os.path.join(hdir, 'go.sum')
-        if not os.path.exists(p) or open(p).read() != want:
-            open(p, 'w').write(want)
+            open(os.path.join(BUILD, 'harness.sum'), 'w').write(f.read())
         out = os.path.join(BUILD, 'harness')
-        rc, log = sh(['go', 'build', '-tags', 'verif', '-o', out, '.'], cwd=hdir, env=GOENV)
+        rc, log = sh(['go', 'build', '-modfile', modfile, '-tags', 'verif', '-o', out, '.'], cwd=hdir, env=GOENV)
         if rc:
             raise BuildError('harness-build', log)
         return out
